@@ -185,6 +185,9 @@ func workerSearch(t *testing.T, job *Job, enc *json.Encoder) {
 		sum.Runs++
 		sum.Outcomes[res.Outcome]++
 		sum.EndReasons[res.EndReason]++
+		if res.TeardownLeak {
+			sum.Probes["teardown_goroutine_leak"]++
+		}
 		if (res.EndReason == "budget" || res.EndReason == "horizon") && res.Outcome == "ok" && len(sum.Unfinished) < 5 {
 			sum.Unfinished = append(sum.Unfinished, fmt.Sprintf("seed=%d variant=%q ended by %s after %d steps, %d simulated ms", spec.Seed, spec.Variant, res.EndReason, res.Steps, res.SimTimeMs))
 		}
